@@ -179,6 +179,10 @@ class Kernel:
         # Files the task leaves in its output directory on success.
         if not p.foreign and p.status == 0:
             self._write_files(p, "ok")
+            if outcome.get("rmout") and p.env.get("COND_OUT"):
+                # the command exits 0 after having removed (or moved away) its own output directory
+                import shutil
+                shutil.rmtree(p.env["COND_OUT"], ignore_errors=True)
         # The bytes the child wrote (in order), then close => EOF for readers.
         chunks = [] if p.foreign or p.termed else self.output.get(p.task, [])
         for fd_no, data in chunks:
